@@ -269,7 +269,7 @@ def run_case(case, seed):
 
 def specs(tier):
     S = []
-    ns = [1, 2, 3, 4, 5, 6, 12] if tier == "thorough" else [1, 2, 3, 5]
+    ns = [1, 2, 3, 4, 5, 6, 8, 12, 20] if tier == "thorough" else [1, 2, 3, 5]
     for n in ns:
         for c in (False, True):
             S += [["psd", n, c], ["gen", n, c], ["Diagonal", n, c]]
@@ -333,7 +333,7 @@ def prepare(tier, seed):
 def describe(tier, seed):
     return {
         "bound": "operators with controlled spectrum: PSD-declared Q diag(l) Q^H, general V diag(l) V^-1 (real with complex-conjugate pairs, "
-                 "complex), singular PSD (exp), Diagonal real/complex for n in " + ("{1,2,3,5}" if tier == "quick" else "{1,...,6,12}")
+                 "complex), singular PSD (exp), Diagonal real/complex for n in " + ("{1,2,3,5}" if tier == "quick" else "{1,...,6,8,12,20}")
                  + "; Identity, ScalarMul, and every structural rule (BlockDiag with multiplicities, Transpose / Adjoint of a generic operator, "
                    "KronSum, Kronecker, 2-3 factors) nested to depth 2; x 17 functions (exp, log, sqrt, isqrt, 11 powers, x^2+1, cos) x 8 "
                    "algorithm settings x operands {1-D, 2 columns, complex 1-D}",
